@@ -481,6 +481,7 @@ func c13R3(p *core.Prog, r *core.Report) {
 		}
 	}
 }
+
 // frameOrigin classifies where a value frame handed to a constructor comes from.
 func frameOrigin(v ssa.Value, depth int) string {
 	if depth > 6 {
